@@ -277,6 +277,8 @@ func (p *Prog) structural(st Structural) (bool, string) {
 			return false, fmt.Sprintf("%s is written outside init by: %s", st.Args[0], strings.Join(bad, ", "))
 		}
 		return true, ""
+	case "noflow":
+		return p.noflow(st)
 	case "defers":
 		// defers F G : function F contains a `defer` of (a function whose name matches) G in its entry path
 		if len(st.Args) != 2 {
@@ -301,4 +303,175 @@ func (p *Prog) structural(st Structural) (bool, string) {
 		return false, fmt.Sprintf("%s does not defer %s", st.Args[0], st.Args[1])
 	}
 	return false, "unknown structural kind " + st.Kind
+}
+
+// ---------- structural data-flow obligation: noflow ----------
+//
+//   structural NAME props Cxx : noflow FUNC from SRC[,SRC...] to SINKPATTERN [clean PATTERN[,PATTERN...]]
+//
+// SRC is "param:<name>" or "ret:<callee pattern>:<index>". Every value computed from a source is tainted
+// (conservatively: any instruction with a tainted operand, stores into local cells/arrays, results of calls with
+// tainted arguments unless the callee matches a `clean` pattern; same-package callees are followed).
+// The obligation holds iff no call matching SINKPATTERN receives a tainted argument.
+func (p *Prog) noflow(st Structural) (bool, string) {
+	args := st.Args
+	if len(args) < 5 || args[1] != "from" || args[3] != "to" {
+		return false, "noflow FUNC from SRCS to SINK [clean PATTERNS]"
+	}
+	var fn *ssa.Function
+	for k, f := range p.funcs {
+		if matchPattern(args[0], k) && pkgPathOf(f) == st.PkgPath {
+			fn = f
+		}
+	}
+	if fn == nil || fn.Blocks == nil {
+		return false, "function " + args[0] + " not found in " + st.PkgPath
+	}
+	srcs := strings.Split(args[2], ",")
+	sink := args[4]
+	var clean []string
+	if len(args) >= 7 && args[5] == "clean" {
+		clean = strings.Split(args[6], ",")
+	}
+	var hits []string
+	seeded := 0
+	var analyse func(fn *ssa.Function, taintedParams map[int]bool, depth int)
+	analyse = func(fn *ssa.Function, taintedParams map[int]bool, depth int) {
+		tainted := map[ssa.Value]bool{}
+		for i, prm := range fn.Params {
+			if taintedParams[i] {
+				tainted[prm] = true
+			}
+			if depth == 0 {
+				for _, s := range srcs {
+					if s == "param:"+prm.Name() {
+						tainted[prm] = true
+						seeded++
+					}
+				}
+			}
+		}
+		isClean := func(name string) bool {
+			for _, c := range clean {
+				if matchPattern(c, name) {
+					return true
+				}
+			}
+			return false
+		}
+		changed := true
+		for iter := 0; changed && iter < 50; iter++ {
+			changed = false
+			mark := func(v ssa.Value) {
+				if v != nil && !tainted[v] {
+					tainted[v] = true
+					changed = true
+				}
+			}
+			for _, b := range fn.Blocks {
+				for _, in := range b.Instrs {
+					// sources: results of calls
+					if ex, ok := in.(*ssa.Extract); ok && depth == 0 {
+						if call, ok := ex.Tuple.(*ssa.Call); ok {
+							for _, s := range srcs {
+								parts := strings.Split(s, ":")
+								if len(parts) == 3 && parts[0] == "ret" && matchPattern(parts[1], calleeName(call.Common())) && fmt.Sprint(ex.Index) == parts[2] {
+									if !tainted[ex] {
+										seeded++
+									}
+									mark(ex)
+								}
+							}
+						}
+					}
+					anyT := false
+					for _, op := range in.Operands(nil) {
+						if *op != nil && tainted[*op] {
+							anyT = true
+						}
+					}
+					if !anyT {
+						continue
+					}
+					switch x := in.(type) {
+					case *ssa.Store:
+						if tainted[x.Val] {
+							// taint the cell (and the array/struct it belongs to)
+							root := x.Addr
+							for {
+								switch a := root.(type) {
+								case *ssa.IndexAddr:
+									root = a.X
+									continue
+								case *ssa.FieldAddr:
+									root = a.X
+									continue
+								}
+								break
+							}
+							mark(root)
+							mark(x.Addr)
+						}
+					case *ssa.Call:
+						name := calleeName(x.Common())
+						if isClean(name) {
+							continue
+						}
+						if callee := x.Common().StaticCallee(); callee != nil && callee.Blocks != nil && pkgPathOf(callee) == pkgPathOf(fn) && depth < 3 && !matchPattern(sink, name) {
+							tp := map[int]bool{}
+							for i, a := range x.Common().Args {
+								if tainted[a] {
+									tp[i] = true
+								}
+							}
+							analyse(callee, tp, depth+1)
+						}
+						mark(x)
+					case ssa.Value:
+						if _, isExtract := in.(*ssa.Extract); isExtract {
+							// results of a clean call stay clean; others inherit
+							if call, ok := in.(*ssa.Extract).Tuple.(*ssa.Call); ok && isClean(calleeName(call.Common())) {
+								continue
+							}
+						}
+						mark(x)
+					}
+				}
+			}
+		}
+		for _, b := range fn.Blocks {
+			for _, in := range b.Instrs {
+				var c *ssa.CallCommon
+				switch x := in.(type) {
+				case *ssa.Call:
+					c = x.Common()
+				case *ssa.Defer:
+					c = x.Common()
+				case *ssa.Go:
+					c = x.Common()
+				}
+				if c == nil || !matchPattern(sink, calleeName(c)) {
+					continue
+				}
+				for _, a := range c.Args {
+					if tainted[a] {
+						hits = append(hits, fmt.Sprintf("%s: call of %s at %s receives a value derived from %s", fn.String(), calleeName(c), p.posString(in.Pos()), strings.Join(srcs, ",")))
+						break
+					}
+				}
+				if c.IsInvoke() && tainted[c.Value] {
+					hits = append(hits, fmt.Sprintf("%s: receiver of %s at %s is derived from a source", fn.String(), calleeName(c), p.posString(in.Pos())))
+				}
+			}
+		}
+	}
+	analyse(fn, nil, 0)
+	if seeded == 0 {
+		return false, "no source matched in " + fn.String() + " (contract is stale): " + strings.Join(srcs, ",")
+	}
+	if len(hits) > 0 {
+		sort.Strings(hits)
+		return false, strings.Join(hits, "\n")
+	}
+	return true, ""
 }
